@@ -599,6 +599,8 @@ class GhostOS:
         self.fault_kind = 'OSError'      # or an interruption that is not an Exception (KeyboardInterrupt)
         self.log = []
         self.on_tick = []
+        self.opened = []             # stores opened through TrajectoryStore.open(...) by the function under contract
+        self.moved_while_open = []   # files renamed while such a store still held them open
 
     def _tick(self, what):
         for cb in self.on_tick:
@@ -650,6 +652,8 @@ def install_ghost_os(h, I, fault_at=None):
         gos._tick(f'rename {s} -> {d}')
         files = I_.hooks['nc_files']
         if s in files:
+            if any((not st.closed) and st.ds is files[s] for st in gos.opened):
+                gos.moved_while_open.append(s)
             files[d] = files.pop(s)
             files[d].f.name = d
         elif s in gos.json:
